@@ -1,6 +1,6 @@
 SPECIFICATION SeededSpec
 CONSTANTS
-  MaxCommits = 6
+  MaxCommits = 7
   MaxOps = 3
   MaxActs = 1
   EmptyPolicies = {"keep", "all"}
